@@ -42,6 +42,9 @@ Proof. induction n; [reflexivity|]. cbn [repeat map]. rewrite IHn. reflexivity. 
 Lemma map_zrepeat {A B} (f : A -> B) x k : map f (zrepeat x k) = zrepeat (f x) k.
 Proof. unfold zrepeat. apply map_repeat'. Qed.
 
+Lemma last_map' {A B} (f : A -> B) l d : last (map f l) (f d) = f (last l d).
+Proof. induction l as [|a l IH]; [reflexivity|]. destruct l; [reflexivity|]. exact IH. Qed.
+
 Section Basic.
   Context {F K : Type} (o : fops F) (fk : fieldK K) (ok : F -> Prop) (den : F -> K).
   Hypothesis H : field_ok o fk ok den.
@@ -218,8 +221,8 @@ Section Basic.
     pose proof (normalize_pnorm l Hl) as N. rewrite E in N.
     assert (NE : pnorm fk (D l) <> []) by (rewrite <- N; discriminate).
     pose proof (pnorm_last_nonzero fk (D l) NE) as L. rewrite <- N in L.
-    rewrite <- (map_last den) in L.
-    replace (last (b :: r) c) with (last (b :: r) (fzero o)); [rewrite <- den0; exact L|].
+    rewrite <- den0, last_map' in L.
+    replace (last (b :: r) c) with (last (b :: r) (fzero o)); [rewrite den0 in L; exact L|].
     clear. revert b. induction r as [|y r IH]; intros b; [reflexivity|]. exact (IH y).
   Qed.
   (* Hash after the repair: equal polynomials feed the same list to the hasher *)
@@ -334,8 +337,8 @@ Section Basic.
     rewrite (proj2 (fo_neg _ _ _ _ H _ ok1)), den1. unfold pscale, popp. apply map_ext. intros c. ring.
   Qed.
   Lemma scale_go_spec l alpha pw : okl l -> ok alpha -> ok pw ->
-    okl (scale_go o (fmul o) (fmul o) alpha pw l) /\
-    D (scale_go o (fmul o) (fmul o) alpha pw l) = pcompscale_go fk (D l) (den alpha) (den pw).
+    okl (scale_go (fmul o) (fmul o) alpha pw l) /\
+    D (scale_go (fmul o) (fmul o) alpha pw l) = pcompscale_go fk (D l) (den alpha) (den pw).
   Proof.
     revert pw. induction l as [|c l IH]; intros pw Hl Ha Hp; [split; [constructor|reflexivity]|].
     inversion Hl; subst. cbn [scale_go map pcompscale_go].
@@ -375,11 +378,11 @@ Section Basic.
   Proof.
     revert i. induction l as [|c l IH]; intros i Hl Hi Hb; [split; [constructor|reflexivity]|].
     inversion Hl; subst. cbn [deriv_go map pderiv_go]. unfold zlen in Hb. cbn [length] in Hb.
-    destruct (IH (i + 1) ltac:(assumption) ltac:(lia) ltac:(unfold zlen; lia)) as [I1 I2].
+    destruct (IH (i + 1)%Z ltac:(assumption) ltac:(lia) ltac:(unfold zlen; lia)) as [I1 I2].
     pose proof (fo_from _ _ _ _ H i ltac:(lia)) as [F1 F2].
     split.
     - constructor; [apply (fo_mul _ _ _ _ H); assumption|exact I1].
-    - rewrite I2. replace (Z.to_nat (i + 1)) with (S (Z.to_nat i)) by lia. f_equal.
+    - rewrite I2. replace (Z.to_nat (i + 1)%Z) with (S (Z.to_nat i)) by lia. f_equal.
       rewrite (proj2 (fo_mul _ _ _ _ H _ c F1 ltac:(assumption))), F2, Z2Nat.id by lia. reflexivity.
   Qed.
   Lemma map_tl {A B} (f : A -> B) l : map f (tl l) = tl (map f l).
